@@ -182,6 +182,9 @@ def make_sources(rng, zones, quick):
     out.append(("iata-like", [(k, rng.choice(zones)) for k in keys(300 if quick else 3000, [3])]))
     out.append(("icao-like", [(k, rng.choice(zones)) for k in keys(300 if quick else 3000, [4])]))
     out.append(("mixed-len", [(k, rng.choice(zones)) for k in keys(200, [1, 2, 3, 4, 5, 7, 8, 9, 12])]))
+    # long zone names: the name pool of the compiler grows in steps
+    out.append(("long-zones", [(k, "Zone/" + "x" * n + "/%d" % n) for k, n in
+                               zip(keys(14, [3]), [40, 55, 56, 57, 58, 59, 60, 61, 64, 100, 120, 128, 255, 400])]))
     for i in range(4 if quick else 60):
         out.append(("rand%d" % i, [(k, rng.choice(zones)) for k in keys(rng.choice([3, 7, 20, 64, 65, 100]), [2, 3, 4])]))
     if not quick:
@@ -314,6 +317,20 @@ def map_task(task):
                 ans, deaths = drive(bindir / "tzmdrv", reqs, sh, cpu=3, wall=60, max_restarts=2, preamble=["O " + fp])
                 kind = lab.split("=")[0].split("@")[0]
                 c = ("mapfault", kind)
+                # the tool's own readers of a compiled map: dump and check walk the records linearly
+                for sub in (["show", "-f", fp], ["check", fp], ["show", "-f", fp, present[0]]):
+                    rt = run([str(bindir / "tzmap")] + sub, cpu=5, wall=60, max_out=8 << 20)
+                    sh.procs += 1
+                    kk = rt.san_kind() or ("cpu-limit" if rt.cpu_exceeded else "signal%s" % rt.sig if rt.sig else None)
+                    if rt.timed_out and not rt.cpu_exceeded:
+                        continue
+                    if kk:
+                        sh.bad("map-safety", "mapfault:tool-%s:%s:%s" % (sub[0], kind, kk),
+                               "faulted map image [%s of %s]: tzmap %s: %s" % (lab, label, sub[0], kk),
+                               dict(files={"f.tzmcc": fim.hex()}, argv=["tzmap"] + [a if a != fp else "{dir}/f.tzmcc" for a in sub],
+                                    stderr=rt.err[-1200:].decode("latin-1")), cls=c + ("tool-died",))
+                    else:
+                        sh.ok("map-safety", c + ("tool-" + sub[0],))
                 if deaths:
                     for ix, rr in deaths:
                         k = rr.san_kind() or ("cpu-limit" if rr.cpu_exceeded else "signal%s" % rr.sig if rr.sig else "rc%s" % rr.rc)
